@@ -15,12 +15,13 @@
      pal256 / gray4                 the palette index / grey level chosen for a colour under the reduced
                                     depths: any functions (which entry is chosen is property C20)
 
-   FINAL STATE.  Counted (Theorem, 16): C05_meaning, C05_face_exact, C05_face_reduced, C05_facemodify_reduced,
-   C05_selfcontained, C05_stream_after_complete_prefix, C05_stream_one_encoder, C05_parser_concat, C05_nopanic,
+   FINAL STATE.  Counted (Theorem, 17): C05_meaning, C05_face_exact, C05_face_reduced, C05_facemodify_reduced,
+   C05_selfcontained, C05_stream_after_complete_prefix, C05_stream_one_encoder, C05_failed_write_harmless,
+   C05_parser_concat, C05_nopanic,
    C05_nopanic_with_reduction, C05_char_introducer_refuted_before_fix, C05_decmodes, and the composition with C01:
    C05_C01_bytes, C05_C01_list, C05_C01_history_bytes, C05_C01_history_final.  Audited, not counted (Example):
    C05_meaning_nonvacuous, C05_char_introducer_witnesses, C05_reduced_selfcontained_nonvacuous,
-   C05_one_encoder_nonvacuous, C05_refuted_before_fixes, C05_C01_nonvacuous.  Spec decisions D1-D10: Encoder/Denote.v.
+   C05_one_encoder_nonvacuous, C05_failed_write_nonvacuous, C05_refuted_before_fixes, C05_C01_nonvacuous.  Spec decisions D1-D10: Encoder/Denote.v.
    Defects fixed in the crate: dc2484b 99cef6a 79f9e06 bdc3281 3326eaa c4fb555 4d6dbe2 cdeff57 73d8d1c; none open. *)
 From Coq Require Import List NArith ZArith Bool.
 From SNT Require Import Base.Outcome Encoder.Decimal Encoder.Utf8 Encoder.Encode Encoder.EncodeStream Encoder.EncodeOrig Encoder.VT
@@ -122,6 +123,23 @@ Theorem C05_stream_one_encoder :
         run_ops t (vt_ops (pre ++ bs)) = run_ops (run_ops t (vt_ops pre)) (flat_map (denote pal256 gray4 cp) cs).
 Proof. exact c05_stream_one_encoder_thm. Qed.
 
+(*    A FAILING WRITER.  encode_stw runs one call of `encode` on a writer that accepts k more bytes and
+      then returns io errors (None = healthy): what reaches the output is the first k bytes of the
+      command's encoding, the call returns Ok exactly when all of it fitted, and -- whatever the failed
+      call left in the scratch buffer (an SGR arm that fails before its drain completed leaves its
+      parameters there) -- every later command on the same object encodes as on a fresh encoder,
+      because both SGR arms clear the buffer first (`self.chunks.clear()`, asserted by the translator). *)
+Theorem C05_failed_write_harmless :
+  forall (pal256 gray4 : rgba -> N) (cp : caps) (s : enc_state) (c : cmd) (b : budget),
+  exists e ok s' b' bs,
+    encode_stw pal256 gray4 cp s c b = Ok (e, ok, s', b') /\
+    encode pal256 gray4 cp c = Ok bs /\
+    e = delivered b bs /\ ok = accepts b (length bs) /\
+    forall later : list cmd,
+      exists out s'', encode_stream_st pal256 gray4 cp s' later = Ok (out, s'') /\
+                      encode_stream pal256 gray4 cp later = Ok out.
+Proof. exact c05_failed_write_harmless_thm. Qed.
+
 (*    (the general fact behind it, about the parser alone) *)
 Theorem C05_parser_concat :
   forall a b, vt_complete a = true -> vt_parse (a ++ b) = vt_parse a ++ vt_parse b.
@@ -220,6 +238,19 @@ Example C05_one_encoder_nonvacuous :
   ts_kbd_main (run_ops ts_dirty1 (vt_ops [27; 91; 61; 53; 117; 27; 99])) = [] /\
   same_final_state (vt_ops [27; 91; 61; 53; 117; 27; 99]) (vt_ops [27; 91; 61; 53; 117; 27; 99; 27; 91; 61; 53; 117]) = false.
 Proof. vm_compute. repeat split; reflexivity. Qed.
+
+(* a Face whose write fails after 9 bytes leaves its parameters in the scratch buffer; the next
+   (empty) modification still emits nothing and a bold-only modification only `ESC[1m` *)
+Example C05_failed_write_nonvacuous :
+  let cp := mkCaps TrueColor false false in
+  let f := mkFace (Some (mkRgba 255 0 0 255)) None 24 in
+  let empty := mkFM false None None None None None None None None in
+  let bold := mkFM false None None None None (Some true) None None None in
+  exists s',
+    encode_stw (fun _ => 16) (fun _ => 0) cp [] (Face f) (Some 9%nat)
+      = Ok ([27; 91; 48; 59; 51; 56; 59; 50; 59], false, s', Some 0%nat) /\ s' <> [] /\
+    encode_stream_st (fun _ => 16) (fun _ => 0) cp s' [FaceModify empty; FaceModify bold] = Ok ([27; 91; 49; 109], []).
+Proof. eexists. split; [vm_compute; reflexivity|]. split; [discriminate | vm_compute; reflexivity]. Qed.
 
 (* ---------- the code before the `fix:` commits did NOT have the property ---------- *)
 Example C05_refuted_before_fixes :
